@@ -21,6 +21,7 @@ func round2Hooks(c *Ctx, id string) {
 	round2Hooks6(c, id)
 	round2Hooks7(c, id)
 	round2Hooks8(c, id)
+	round2Hooks9(c, id)
 	switch id {
 	case "C01":
 		sharedDeleteExact(c, "C01.g shared-delete-exact")
